@@ -27,6 +27,12 @@ of d elementary features).  `typenames(d)` returns EVERY derivation of depth
                     each parameter TypeName                                     cost 1 + its depth
                     a trailing `...` after >= 1 parameter                       cost 1
 
+Grammar(ext=True) (used by C07; C08 enumerates Grammar()) adds to Specs, at cost 1 each: every
+ordering of float/double + _Complex, the typedefs of DECLS_XB (of an array, a function, a
+function pointer, void, an anonymous enum, a pointer to an anonymous struct) and the names
+that need no declaration (bool, int32_t, size_t, wchar_t, char16_t).  typenames(d, hole=True)
+returns the same derivations with the hole kept, for the named-parameter family of C07.
+
 The hole is the position where the next (outer-to-inner in the text, inner-to-outer
 in the type) constructor is written: exactly the `ct_name_position` of cffi.
 """
